@@ -159,4 +159,23 @@ bool vp_ranges(int (&arr)[3], int (&arr0)[1])
   return r;
 }
 
+// range_includes / range_is_permutation (C11): std::vector<std::function<bool(const E&)>> of predicate closures
+bool vp_ranges2(int (&arr)[3], int (&vals2)[2], int (&vals3)[3])
+{
+  using namespace trompeloeil;
+  bool r = true;
+  r = param_matches(range_includes(vals2), std::ref(arr)) && r;
+  r = param_matches(range_is_permutation(vals3), std::ref(arr)) && r;
+  r = param_matches(range_is(vals3), std::ref(arr)) && r;
+  r = param_matches(range_starts_with(vals2), std::ref(arr)) && r;
+  r = param_matches(range_ends_with(vals2), std::ref(arr)) && r;
+  r = param_matches(range_includes(vp_abs<1>{}, vp_abs<2>{}), std::ref(arr)) && r;
+  r = param_matches(range_includes(vp_abs<1>{}, vp_abs<1>{}), std::ref(arr)) && r;
+  r = param_matches(range_is_permutation(vp_abs<1>{}, vp_abs<2>{}, vp_abs<3>{}), std::ref(arr)) && r;
+  r = param_matches(range_is_permutation(vp_abs<1>{}, vp_abs<2>{}), std::ref(arr)) && r;
+  r = param_matches(range_includes(1, 1), std::ref(arr)) && r;
+  r = param_matches(range_is_permutation(1, 2, 3), std::ref(arr)) && r;
+  return r;
+}
+
 } // namespace vp_trompeloeil
